@@ -73,7 +73,12 @@ fn split_string(str: String) -> Vec<LogArgument> {
     let sub_len = 230;
     let mut cur = str;
     while !cur.is_empty() {
-        let (chunk, rest) = cur.split_at(std::cmp::min(sub_len, cur.len()));
+        // Split at a character boundary (a chunk is at most `sub_len` bytes).
+        let mut mid = std::cmp::min(sub_len, cur.len());
+        while !cur.is_char_boundary(mid) {
+            mid -= 1;
+        }
+        let (chunk, rest) = cur.split_at(mid);
         v.push(LogArgument::LogStr(chunk.to_string()));
         cur = rest.to_string();
     }
